@@ -393,8 +393,14 @@ func TestVerifC17(t *testing.T) {
 							continue
 						}
 						atomic.AddInt64(&refs, 1)
-						if ref != p.H.Status {
-							env.oracle("handler %d: net/http delivers status %d for the unwrapped script, the specification says %d (%s)", i+1, ref, p.H.Status, p.Describe())
+						want := p.H.Status
+						for _, a := range p.H.Alts {
+							if a.Flush { // net/http's own writer flushes
+								want = a.Status
+							}
+						}
+						if ref != want {
+							env.oracle("handler %d: net/http delivers status %d for the unwrapped script, the specification says %d (%s)", i+1, ref, want, p.Describe())
 							continue
 						}
 						p.RefStatus = ref
